@@ -399,7 +399,10 @@ where
 
     // Observe opened values before getting PCS challenges.
     // For single-STARK with one instance, the standard observation order is correct.
-    opened_values_no_lookups.observe(circuit, &mut challenger);
+    // For `HidingFriPcs`, the native verifier merges the PCS-level random opened values
+    // into each point's values before observing them, so they are interleaved here too.
+    let fri_random_rounds = SC::Pcs::get_fri_random_opened_values(&proof_targets.opening_proof);
+    opened_values_no_lookups.observe(circuit, &mut challenger, fri_random_rounds);
 
     // Get PCS-specific challenges (FRI betas, query indices, etc.)
     let pcs_challenges = SC::Pcs::get_challenges_circuit::<WIDTH, RATE, CP>(
